@@ -28,6 +28,9 @@ def run(tier, seed, t0):
             for s in range(3):
                 jobs.append(j("cmp-small-%s-s%d" % (be, s), "optim", be, ["--seed", seed + s, "--threads", "1,2,4,8,16,32,64", "--rounds", 2, "--passes", 2], weight=16, timeout=3600))
             jobs.append(j("cmp-default128-%s" % be, "optim", be, ["--seed", seed, "--lambda", 128, "--threads", "4,16,32", "--rounds", 1, "--slowjobs", 0], weight=16, timeout=3600))
+            for sd in range(3):
+                jobs.append(j("cmp-detached-%s-s%d" % (be, sd), "optim", be, ["--seed", seed + sd, "--detached", 1, "--threads", "2,3,4,6,8,16,32", "--rounds", 10, "--slowjobs", 0], weight=16, timeout=3600))
+            jobs.append(j("tsan-detached-%s" % be, "tsan", be, ["--seed", seed, "--detached", 1, "--threads", "2,6", "--rounds", 4, "--slowjobs", 0], tool="tsan", weight=8, timeout=3600))
             jobs.append(j("tsan-%s" % be, "tsan", be, ["--seed", seed, "--threads", "2,8,16", "--rounds", 3, "--slowjobs", 0], tool="tsan", weight=8, timeout=3600))
             jobs.append(j("helgrind-%s" % be, "vg", be, ["--seed", seed, "--threads", "4", "--rounds", 2, "--slowjobs", 0, "--n", 8, "--warm", 1, "--keygen", 1 if be == "spqlios-fma" else 0], tool="helgrind", weight=4, timeout=7200))
         jobs.append(j("cmp-debug-spqlios-fma", "debug", "spqlios-fma", ["--seed", seed, "--threads", "4,16", "--rounds", 1], weight=8, timeout=3600))
@@ -37,6 +40,8 @@ def run(tier, seed, t0):
         jobs.append(j("cmp-small-nayuki-avx", "optim", "nayuki-avx", ["--seed", seed, "--threads", "1,4,16", "--rounds", 2], weight=8))
         jobs.append(j("cmp-small-fftw", "optim", "fftw", ["--seed", seed, "--threads", "2,8,16", "--rounds", 2], weight=8))
         jobs.append(j("cmp-default128-spqlios-fma", "optim", "spqlios-fma", ["--seed", seed, "--lambda", 128, "--threads", "8", "--rounds", 1, "--slowjobs", 0], weight=8))
+        for be in vbuild.BACKENDS:
+            jobs.append(j("cmp-detached-%s" % be, "optim", be, ["--seed", seed, "--detached", 1, "--threads", "2,4,6,8,16", "--rounds", 6, "--slowjobs", 0], weight=8))
         jobs.append(j("tsan-nayuki-portable", "tsan", "nayuki-portable", ["--seed", seed, "--threads", "2,8", "--rounds", 2, "--slowjobs", 0], tool="tsan", weight=6))
         jobs.append(j("tsan-fftw", "tsan", "fftw", ["--seed", seed, "--threads", "2,8", "--rounds", 3, "--slowjobs", 0], tool="tsan", weight=6))
         jobs.append(j("helgrind-spqlios-fma", "vg", "spqlios-fma", ["--seed", seed, "--threads", "3", "--rounds", 1, "--slowjobs", 0, "--n", 8, "--warm", 1, "--keygen", 0], tool="helgrind", weight=4))
